@@ -418,6 +418,19 @@ ROUND6 = {
 }
 for _k, _v in ROUND6.items():
     CHECKS[_k]['text'] += '  ' + _v
+ROUND7 = {
+    'C01': 'The native toy model is undefined (NaN) at every (output, time) slot without a measurement.',
+    'C07': 'The documented (n_selected, n_cov) matrix layout of the effects gives the same transform and sensitivities as the flat vector.',
+    'C09': 'Generated programs with names that differ in case (either collation of "alphabetically" is accepted for the published order; the assignment of the vector entries decides).',
+    'C11': 'Renames to longer names; operations sens_two / rename_first_par in the induction step with a predicate on the requested sensitivity positions; valid requests (copy, sensitivity switch, simulate) may not raise.',
+    'C12': 'Bounded: memory-layout invariance (Fortran-ordered copies, transposed views, strided slices) of value and sensitivities.',
+    'C15': 'A bare non-centred population model; covariates handed to a model without covariates are ignored.',
+    'C16': 'Exactly identical individuals (fully pooled population, Gaussian dimension with standard deviation 0) still carry independent noise.',
+    'C17': 'set_n_ids changes the names of heterogeneous dimensions only; likelihoods that already carry a positional label are rejected or labelled one-to-one; nested compositions in the hierarchical family.',
+    'C19': 'The user\'s own protocol object extended in place after the owner was built.',
+}
+for _k, _v in ROUND7.items():
+    CHECKS[_k]['text'] += '  ' + _v
 NOT_APPLICABLE = {}
 
 # property id -> contract module (a module may exist before the property is claimed in CHECKS)
